@@ -265,16 +265,7 @@ SET_OF_decode_ber(const asn_codec_ctx_t *opt_codec_ctx,
 	RETURN(RC_OK);
 }
 
-/*
- * Internally visible buffer holding a single encoded element.
- */
-struct _el_buffer {
-	uint8_t *buf;
-	size_t length;
-	size_t allocated_size;
-    unsigned bits_unused;
-};
-/* Append bytes to the above structure */
+/* Append bytes to the buffer holding a single encoded element */
 static int _el_addbytes(const void *buffer, size_t size, void *el_buf_ptr) {
     struct _el_buffer *el_buf = (struct _el_buffer *)el_buf_ptr;
 
@@ -336,7 +327,7 @@ static int _el_buf_cmp(const void *ap, const void *bp) {
     return ret;
 }
 
-static void
+void
 SET_OF__encode_sorted_free(struct _el_buffer *el_buf, size_t count) {
     size_t i;
 
@@ -347,12 +338,7 @@ SET_OF__encode_sorted_free(struct _el_buffer *el_buf, size_t count) {
     FREEMEM(el_buf);
 }
 
-enum SET_OF__encode_method {
-    SOES_DER,   /* Distinguished Encoding Rules */
-    SOES_CUPER  /* Canonical Unaligned Packed Encoding Rules */
-};
-
-static struct _el_buffer *
+struct _el_buffer *
 SET_OF__encode_sorted(const asn_TYPE_member_t *elm,
                       const asn_anonymous_set_ *list,
                       enum SET_OF__encode_method method) {
@@ -393,6 +379,13 @@ SET_OF__encode_sorted(const asn_TYPE_member_t *elm,
                 encoding_el->bits_unused = (8 - extra_bits) & 0x7;
             }
             break;
+#ifndef ASN_DISABLE_OER_SUPPORT
+        case SOES_COER:
+            erval = elm->type->op->oer_encoder(
+                elm->type, elm->encoding_constraints.oer_constraints, memb_ptr,
+                _el_addbytes, encoding_el);
+            break;
+#endif  /* ASN_DISABLE_OER_SUPPORT */
         default:
             assert(!"Unreachable");
             break;
